@@ -525,10 +525,29 @@ Proof.
 Qed.
 
 (* ---- modules *)
+Lemma exec_odoc d u r sv : is_doc_t d = true ->
+  s_exc (exec_ol (d :: u) r sv) = s_exc (exec_ol u r sv) /\ s_env (exec_ol (d :: u) r sv) = s_env (exec_ol u r sv) /\
+  s_log (exec_ol (d :: u) r sv) = s_log (exec_ol u r sv).
+Proof.
+  destruct d as [n v| | | | |]; try discriminate. destruct v as [|m sc| | | | | | | | | | |]; try discriminate.
+  destruct sc; try discriminate. intros _. rewrite exec_ol_cons. unfold seq. cbn [FragOv.exec_os FragOv.eval_o s_exc s_env s_saved s_log app].
+  repeat split; reflexivity.
+Qed.
 Theorem module_sim_o body : forallb src_s body = true -> forall r sv,
   simo (exec_ol (instr_module c body) r sv) (ref_omodule body r).
 Proof.
-  intros Hs r sv. unfold instr_module, FragOv.ref_omodule.
+  intros Hs0 r sv. unfold instr_module, FragOv.ref_omodule.
+  assert (Hd : forall u, simo (exec_ol u r sv) (let a := ref_ol true (trest body) r in
+             {| r_exc := r_exc a; r_env := r_env a;
+                r_log := (E_init_module, 0, Some VNone) :: r_log a ++ match r_exc a with None => [(E_exit_module, 0, Some VNone)] | Some _ => [] end |}) ->
+            simo (exec_ol (tdoc body ++ u) r sv) (let a := ref_ol true (trest body) r in
+             {| r_exc := r_exc a; r_env := r_env a;
+                r_log := (E_init_module, 0, Some VNone) :: r_log a ++ match r_exc a with None => [(E_exit_module, 0, Some VNone)] | Some _ => [] end |})).
+  { intros u Hu. destruct body as [|d rest]; [exact Hu|]. unfold tdoc. destruct (is_doc_t d) eqn:Ed; [|exact Hu].
+    cbn [app]. destruct (exec_odoc d u r sv Ed) as (E1 & E2 & E3). destruct Hu as (M1 & M2 & M3).
+    unfold simo. rewrite E1, E2, E3. repeat split; assumption. }
+  apply Hd. clear Hd. pose proof (trest_src body Hs0) as Hs. generalize dependent (trest body). clear body Hs0. intros body Hs. revert r sv.
+  intros r sv. unfold instr_module0.
   assert (HB : forall r sv, simo (exec_ol (flat_map (is_ c true) body) r sv) (ref_ol true body r)).
   { apply list_oko; [|exact Hs]. apply Forall_forall. intros s _. apply stmt_sim_o. }
   assert (HX : forall r sv, simo (exec_ol (flat_map (is_ c true) body ++ (if sub c E_exit_module then [SEmit E_exit_module 0 None] else [])) r sv)
